@@ -6,6 +6,7 @@ import (
 	"encoding/hex"
 	"fmt"
 	"os"
+	"path/filepath"
 	"reflect"
 	"regexp"
 	"sort"
@@ -96,7 +97,12 @@ func genMetaInfo(r *rng.R, info *nfpm.Info) {
 	}
 	info.Deb.Predepends, info.Deb.Breaks = genRelList(r), genRelList(r)
 	if r.Bool() {
-		info.Deb.Fields = map[string]string{"Bugs": "https://bugs.example.com", "Empty": "", "Vcs-Git": "git://x"}
+		// custom fields incl. names Debian policy knows but nfpm's template never writes itself: they reach the control
+		// file only from here
+		info.Deb.Fields = rng.Pick(r, []map[string]string{
+			{"Bugs": "https://bugs.example.com", "Empty": "", "Vcs-Git": "git://x"},
+			{"Source": "verif-src", "Essential": "no", "Enhances": "other-pkg", "Built-Using": "gcc-12 (= 12.2.0-14)", "Multi-Arch": "foreign"},
+		})
 	}
 	if r.Chance(1, 3) {
 		info.Deb.Triggers.Interest = []string{"trig-a", "trig-b"}
@@ -563,6 +569,8 @@ func runC02(c *Ctx) error {
 			metaCase(c, famE, f, s, map[string]any{"epoch": ep})
 		}
 	}
+	// ---- rpm changelog entries
+	c02RpmChangelog(c)
 	// ---- random metadata
 	fam2 := c.Rep.Family("metadata", "random metadata (unicode, multi-line and blank-line descriptions, CRLF, padded values, empty optional fields, relation lists with version constraints and blank items, custom fields incl. reserved ipk names, triggers, ipk alternatives/tags/ABI, rpm group/summary/packager/prefixes, archlinux pkgbase/packager, all version component combinations; every second case with the conventional file name asked of the Info first) x 5 formats: control member bytes vs model, control data parsed by the Lean parsers vs the logical fields the configuration states; non-trivial = every built case")
 	tree, err := MkTree(c.Tmp+"/src", 0)
@@ -624,6 +632,82 @@ func runC02(c *Ctx) error {
 // relation lists the documentation calls expandable, after trimming blanks and dropping empty items (C16
 // expandSlice_no_dollar; values holding '$' are left out here, C16 owns them).  Together with the metadata family
 // (the package states what the packager was handed) this is "the package states what the configuration states".
+// c02RpmChangelog: "changelog entries appear iff configured and with the configured values" for rpm: one
+// CHANGELOGTIME / CHANGELOGNAME / CHANGELOGTEXT triple per entry of the changelog file, in file order – the date the
+// entry states, "<packager> - <version>", and every note of the entry in the text.
+func c02RpmChangelog(c *Ctx) {
+	fam := c.Rep.Family("rpm-changelog", "exhaustive over 4 changelog files (one entry; three entries; an entry without changes between two with; an entry without a date) : the rpm header's changelog tags 1080/1081/1082 vs the entries of the file (count, order, date, packager and version, every note); non-trivial = always")
+	fam.Exhaustive = true
+	type ent struct {
+		semver, date, packager string
+		unix                   int64
+		notes                  []string
+	}
+	files := map[string][]ent{
+		"one-entry":                     {{"1.0.0", "2020-01-02T03:04:05Z", "Verif <verif@example.com>", 1577934245, []string{"first release"}}},
+		"three-entries":                 {{"1.2.0", "2022-05-06T07:08:09Z", "A <a@example.com>", 1651820889, []string{"third", "second note"}}, {"1.1.0", "2021-03-04T05:06:07Z", "B <b@example.com>", 1614834367, []string{"second"}}, {"1.0.0", "2020-01-02T03:04:05Z", "C <c@example.com>", 1577934245, []string{"first"}}},
+		"entry-without-changes-between": {{"1.2.0", "2022-05-06T07:08:09Z", "A <a@example.com>", 1651820889, []string{"third"}}, {"1.1.0", "2021-03-04T05:06:07Z", "B <b@example.com>", 1614834367, nil}, {"1.0.0", "2020-01-02T03:04:05Z", "C <c@example.com>", 1577934245, []string{"first"}}},
+		"entry-without-date":            {{"1.1.0", "2021-03-04T05:06:07Z", "B <b@example.com>", 1614834367, []string{"dated"}}, {"1.0.0", "", "C <c@example.com>", 2288912640, []string{"undated"}}},
+	}
+	dir := filepath.Join(c.Tmp, "c02-changelogs")
+	_ = os.MkdirAll(dir, 0o755)
+	for name, ents := range files {
+		var y strings.Builder
+		y.WriteString("---\n")
+		for _, e := range ents {
+			fmt.Fprintf(&y, "- semver: %s\n", e.semver)
+			if e.date != "" {
+				fmt.Fprintf(&y, "  date: %s\n", e.date)
+			}
+			fmt.Fprintf(&y, "  packager: %s\n", e.packager)
+			if len(e.notes) > 0 {
+				y.WriteString("  changes:\n")
+				for _, n := range e.notes {
+					fmt.Fprintf(&y, "    - note: %q\n", n)
+				}
+			}
+		}
+		path := filepath.Join(dir, name+".yaml")
+		_ = os.WriteFile(path, []byte(y.String()), 0o644)
+		s := &PkgSpec{Umask: 0o022, MTime: 1700000000, Mutate: func(info *nfpm.Info) {
+			info.Changelog = path
+			nfpm.WithDefaults(info)
+		}}
+		data, err := BuildPkg("rpm", s.Info())
+		fam.Eval(name, true)
+		in := map[string]any{"format": "rpm", "changelog_file": y.String()}
+		if err != nil {
+			c.Rep.Find(report.Finding{Property: "C02", Family: fam.Name, Shape: "rpm:changelog:build-error", What: "an rpm with this changelog does not build: " + err.Error(), Input: in})
+			continue
+		}
+		dec, derr := DecodePkg("rpm", data)
+		if derr != nil {
+			continue
+		}
+		times, names, texts := dec.Rpm.Hdr[1080].Ints, dec.Rpm.Hdr[1081].Strs, dec.Rpm.Hdr[1082].Strs
+		bad := ""
+		if len(times) != len(ents) || len(names) != len(ents) || len(texts) != len(ents) {
+			bad = fmt.Sprintf("%d entries in the file, %d times / %d names / %d texts in the header", len(ents), len(times), len(names), len(texts))
+		} else {
+			for i, e := range ents {
+				if int64(times[i]) != e.unix {
+					bad = fmt.Sprintf("entry %d (%s): CHANGELOGTIME %d, the entry is dated %s (%d)", i+1, e.semver, times[i], e.date, e.unix)
+				} else if names[i] != e.packager+" - "+e.semver {
+					bad = fmt.Sprintf("entry %d: CHANGELOGNAME %q, the entry states packager %q and version %q", i+1, names[i], e.packager, e.semver)
+				}
+				for _, n := range e.notes {
+					if !strings.Contains(texts[i], n) {
+						bad = fmt.Sprintf("entry %d (%s): CHANGELOGTEXT %q lacks the note %q", i+1, e.semver, texts[i], n)
+					}
+				}
+			}
+		}
+		if bad != "" {
+			c.Rep.Find(report.Finding{Property: "C02", Family: fam.Name, Shape: "rpm:changelog-entries-differ-from-file:" + name, What: bad, Input: in})
+		}
+	}
+}
+
 func c02YAMLRoute(c *Ctx, r *rng.R) error {
 	fam := c.Rep.Family("yaml-route", "random metadata (generator of the metadata family, plus format-specific lists that differ between deb and ipk; every second document with an override block per format that restates `depends` only) written as a YAML document, nfpm.Parse, Config.Get(format) x 5 formats: every leaf of the Info the packager is handed vs the leaf the document states (after WithDefaults; expandable relation lists trimmed, empty items dropped); one evaluation per (document, format); non-trivial = the document parses")
 	trim := func(l []string) []string {
